@@ -155,3 +155,23 @@ func decodeCase(b []byte) (vt.Case, error) {
 	err := dec.Decode(&c)
 	return c, err
 }
+
+// seriesMixed is series() with every third series carrying a LARGE label set (long label values
+// of 1-4 KB or 50+ labels, > 1 KB in total), so that tenant prefix + labels exceed the 1 KB
+// fast-path buffer of labelpb.HashWithPrefix and the streaming digest path is taken; different
+// large series are hashed alternately and repeatedly in one process.
+func seriesMixed(seed int64, k int) *prompb.TimeSeries {
+	ts := series(seed, k)
+	if k%3 != 0 {
+		return ts
+	}
+	r := rand.New(rand.NewSource(seed*7919 + int64(k)))
+	if k%2 == 0 {
+		ts.Labels = append(ts.Labels, labelpb.ZLabel{Name: "stacktrace", Value: strings.Repeat(fmt.Sprintf("frame-%d/", r.Intn(1000)), 120+r.Intn(400))})
+	} else {
+		for i := 0; i < 50+r.Intn(30); i++ {
+			ts.Labels = append(ts.Labels, labelpb.ZLabel{Name: fmt.Sprintf("tag_%03d", i), Value: fmt.Sprintf("value-%d-%d-%s", k, r.Intn(1<<20), strings.Repeat("x", 10+r.Intn(30)))})
+		}
+	}
+	return ts
+}
